@@ -59,7 +59,7 @@ def toiArg? : String → Option ToiArg
 
 def reason : Refuse → String
   | .noPriorityQueue => "noq" | .fdtComplete => "complete" | .xmlMetadata => "xml" | .foreignToi => "foreign"
-  | .notImplemented => "notimpl" | .tooLong => "toolong" | .rsNoParity => "rsnoparity" | .rsFtiFields => "rsfields" | .rsBlockOver255 => "rs255" | .blockOverKmax => "kmax"
+  | .notImplemented => "notimpl" | .tooLong => "toolong" | .rsNoParity => "rsnoparity" | .rsFtiFields => "rsfields" | .rsBlockOver255 => "rs255" | .blockOverKmax => "kmax" | .raptorBlockLt4 => "raptorlt4"
   | .noSchemeSpecific => "noscheme" | .tooManyBlocks => "toomanyblocks"
 
 /-- Z as the FDT File entry announces it (`scheme_specific_info`): only for the variant of the encoding id -/
